@@ -138,6 +138,7 @@ theorem BE.trans' {a b c : State} (h1 : BE a b) (h2 : BE b c) : BE a c :=
 macro "be_tac" : tactic => `(tactic| (splits <;> simp_all [BE]))
 
 @[simp] theorem be_emit (s : State) (e : String) : BE s (s.emit e) := ⟨rfl, rfl, rfl, rfl, rfl⟩
+@[simp] theorem be_emitEv (s : State) (k : EvKind) (r : String) : BE s (s.emitEv k r) := ⟨rfl, rfl, rfl, rfl, rfl⟩
 @[simp] theorem be_emitCaller (s : State) (c : Nat) (e b : String) : BE s (s.emitCaller c e b) := ⟨rfl, rfl, rfl, rfl, rfl⟩
 @[simp] theorem be_storeFatal (s : State) (t : String) : BE s (storeFatal s t) := by unfold storeFatal; be_tac
 @[simp] theorem be_cancelFlows (s : State) (e : CErr) : BE s (cancelFlows s e) := by unfold cancelFlows; splits <;> simp [BE, Latch.cancel]
@@ -611,7 +612,7 @@ theorem be_foldl_emit {α : Type} (l : List α) (f : α → String) (s : State) 
 @[simp] theorem be_initTailEvents (s : State) (ph : Phase) (st : String) : BE s (initTailEvents s ph st) := by
   unfold initTailEvents
   dsimp only
-  generalize hs1 : (if s.rtDoneReg = true then s.emit _ else s) = s1
+  generalize hs1 : (if s.rtDoneReg = true then s.emitEv _ _ else s) = s1
   have h0 : BE s s1 := by rw [← hs1]; split <;> exact ⟨rfl, rfl, rfl, rfl, rfl⟩
   exact BE.trans' h0 (BE.trans' (be_foldl_emit _ _ _) ⟨rfl, rfl, rfl, rfl, rfl⟩)
 @[simp] theorem be_disarm (s : State) : BE s (disarmShutdownTimers s) := ⟨rfl, rfl, rfl, rfl, rfl⟩
@@ -839,7 +840,7 @@ theorem binv_launch_head_found (s : State) (ph : Phase) (l : List String)
 theorem binv_startInit (s : State) (ph : Phase) (hB : BInv s) (hnw : orchWaitOf s.orch = none) : BInv (startInit s ph) := by
   unfold startInit
   dsimp only
-  have i1 : BInv { (s.emit s!"ev initStart:{ph.str}") with gen := s.gen + 1, rtDoneReg := false } :=
+  have i1 : BInv { (s.emitEv .initStart ph.str) with gen := s.gen + 1, rtDoneReg := false } :=
     binv_of_beo (s := s) rfl (Or.inr rfl) rfl rfl rfl rfl hB
   split
   · exact binv_initFinish _ _ _ _ _ i1
@@ -854,7 +855,7 @@ theorem binv_startInit (s : State) (ph : Phase) (hB : BInv s) (hnw : orchWaitOf 
       have := congrArg List.length hB.pre
       simp only [List.length_take] at this
       omega
-    have i2 : BInv { ({ (s.emit s!"ev initStart:{ph.str}") with gen := s.gen + 1, rtDoneReg := false } : State) with
+    have i2 : BInv { ({ (s.emitEv .initStart ph.str) with gen := s.gen + 1, rtDoneReg := false } : State) with
         initFlow := { s.initFlow with extRegistered := (s.initFlow.extRegistered.setCount s.extFiles.length).1 } } := by
       rw [hsc]
       refine ⟨hB.pre, ?_, hB.arr, ?_, hB.rt⟩
